@@ -64,16 +64,19 @@ def entryStrs (kv : String × Val) : List String :=
   | .seq xs => xs.map (fun x => kv.1 ++ "=" ++ fmtV x)
   | v => [kv.1 ++ "=" ++ fmtV v]
 
+/-- `var seq []any` stays nil when nothing is appended -/
+def nilIfEmpty (l : List Val) : Option (List Val) := if l.isEmpty then none else some l
+
 /-- `convertIntoSequence`: `none` is Go's nil slice -/
 def intoSeq : Val → Option (List Val)
-  | .map kvs => some ((sortStrs (kvs.flatMap entryStrs)).map Val.str)
+  | .map kvs => nilIfEmpty ((sortStrs (kvs.flatMap entryStrs)).map Val.str)
   | .seq xs => some xs
   | .str s => some [.str s]
   | _ => none
 
 /-- the code without its `slices.SortFunc` (what a careless edit would leave) -/
 def intoSeqUnsorted : Val → Option (List Val)
-  | .map kvs => some ((kvs.flatMap entryStrs).map Val.str)
+  | .map kvs => nilIfEmpty ((kvs.flatMap entryStrs).map Val.str)
   | .seq xs => some xs
   | .str s => some [.str s]
   | _ => none
